@@ -110,6 +110,22 @@ func (r *Remote) getPendingChan(key string) chan Message {
 	return pending.msgChan
 }
 
+// waitPending returns the channel on which the reply to key will be delivered
+// and marks it as having a waiter, so that it is not discarded as an orphan.
+func (r *Remote) waitPending(key string) chan Message {
+	ch := r.getPendingChan(key)
+	r.mu.Lock()
+	defer r.mu.Unlock()
+	pending, ok := r.pending[key]
+	if !ok || pending.msgChan != ch {
+		// Discarded in the meantime, put it back.
+		pending = pendingMsg{msgChan: ch, timestamp: time.Now()}
+	}
+	pending.waiting = true
+	r.pending[key] = pending
+	return ch
+}
+
 func (r *Remote) handleRequest(msg *Message) error {
 	ctx := context.WithValue(context.Background(), ctxService, r)
 	resp := r.Server.Handle(ctx, msg)
@@ -138,12 +154,16 @@ func (r *Remote) Serve() error {
 func (r *Remote) receive(ctx context.Context, ID json.RawMessage) (*Message, error) {
 	key := string(ID)
 	select {
-	case msg := <-r.getPendingChan(key):
+	case msg := <-r.waitPending(key):
 		r.mu.Lock()
 		delete(r.pending, key)
 		r.mu.Unlock()
 		return &msg, nil
 	case <-ctx.Done():
+		// Nobody is waiting anymore, a late reply will be an orphan.
+		r.mu.Lock()
+		delete(r.pending, key)
+		r.mu.Unlock()
 		return nil, ctx.Err()
 	}
 }
@@ -157,7 +177,13 @@ func (r *Remote) Call(ctx context.Context, result interface{}, method string, pa
 	if err != nil {
 		return err
 	}
+	// Register as waiting for the reply before the request is sent, so the
+	// reply cannot arrive (and be discarded as an orphan) before we wait.
+	r.waitPending(string(req.ID))
 	if err = r.Codec.WriteMessage(req); err != nil {
+		r.mu.Lock()
+		delete(r.pending, string(req.ID))
+		r.mu.Unlock()
 		return err
 	}
 	resp, err := r.receive(ctx, req.ID)
